@@ -379,6 +379,10 @@ func HarnessC18NoStateWitness() {
 		verif.Class("after-a-rejected-statement")
 	case strings.Contains(text1, " between ") && hasBound(text2):
 		verif.Class("global-time-bound-after-an-accepted-BETWEEN")
+	case strings.Contains(text1, " at }") || strings.Contains(text1, " at ."):
+		// known: the grammar accepts AT without a binding after a predicate bound in
+		// object position; the object hook then still waits for the AT binding
+		verif.Class("after-an-accepted-clause-ending-in-AT-without-a-binding")
 	default:
 		verif.Class("after-an-accepted-statement")
 	}
